@@ -22,20 +22,20 @@ import sexp  # noqa: E402
 class Model:
     """one long-lived process of the extracted model; one answer line per command line"""
     def __init__(self):
-        self.p = subprocess.Popen([MODEL_BIN], stdin=subprocess.PIPE, stdout=subprocess.PIPE,
-                                  text=True, bufsize=1, encoding='utf-8', errors='surrogateescape')
+        # binary pipes: text mode would translate a carriage return inside an atom into a line break
+        self.p = subprocess.Popen([MODEL_BIN], stdin=subprocess.PIPE, stdout=subprocess.PIPE, bufsize=0)
         self.calls = 0
 
     def ask(self, cmd: str, payload) -> str:
         line = cmd + ' ' + sexp.dumps(payload)
         assert '\n' not in line
-        self.p.stdin.write(line + '\n')
+        self.p.stdin.write((line + '\n').encode('utf-8', 'surrogateescape'))
         self.p.stdin.flush()
         self.calls += 1
         out = self.p.stdout.readline()
         if not out:
             raise RuntimeError('model process died on: ' + line[:300])
-        return out.rstrip('\n')
+        return out.decode('utf-8', 'surrogateescape').rstrip('\n')
 
     def close(self):
         try:
